@@ -61,6 +61,29 @@ func VerifyNameErrorNSEC(msg *dns.Msg, nsecSet []dns.RR) error {
 		return ErrNSECMissingCoverage
 	}
 
+	// Canonical order puts a name directly before its descendants, so an
+	// NSEC can span qname and still say that qname exists: when its next
+	// name lies below qname, qname is an empty non-terminal (RFC 4592 §2.2.2,
+	// RFC 8198 §5.2) — NODATA, never NXDOMAIN.
+	if nsecProperAncestor(qname, covering.NextDomain) {
+		return ErrNSECMissingCoverage
+	}
+	// An NSEC owned by a proper ancestor of qname that is a delegation point
+	// (NS without SOA) or owns a DNAME comes from a zone that is not
+	// authoritative for qname: the names below it live in the child zone or
+	// are redirected, and the parent's interval proves nothing about them
+	// (RFC 6840 §4.1, RFC 6672 §5.3.2).
+	for _, rr := range nsecSet {
+		nsec := rr.(*dns.NSEC)
+		if !nsecProperAncestor(nsec.Header().Name, qname) {
+			continue
+		}
+		if (typesSet(nsec.TypeBitMap, dns.TypeNS) && !typesSet(nsec.TypeBitMap, dns.TypeSOA)) ||
+			typesSet(nsec.TypeBitMap, dns.TypeDNAME) {
+			return ErrNSECBadDelegation
+		}
+	}
+
 	ce := closestEncloserFromNSEC(qname, covering)
 	if ce == "" {
 		return ErrNSECMissingCoverage
@@ -81,6 +104,14 @@ func VerifyNameErrorNSEC(msg *dns.Msg, nsecSet []dns.RR) error {
 		}
 	}
 	return ErrNSECMissingCoverage
+}
+
+// nsecProperAncestor reports whether ancestor is a proper ancestor of name:
+// name lies strictly below it, on a label boundary.
+func nsecProperAncestor(ancestor, name string) bool {
+	a := strings.ToLower(dns.Fqdn(ancestor))
+	n := strings.ToLower(dns.Fqdn(name))
+	return a != n && a != "." && dnsutil.NameInZone(n, a)
 }
 
 // closestEncloserFromNSEC derives the closest encloser of qname from the
